@@ -6,6 +6,7 @@ import (
 	"html/template"
 	"os"
 	filepathpkg "path/filepath"
+	"sort"
 	"strings"
 
 	"github.com/antlr4-go/antlr/v4"
@@ -67,6 +68,26 @@ func (s *SyntaxErrorListener) Error() string {
 		errStr += fmt.Sprintf("line %d:%d %s\n", err.Line, err.Column, err.Msg)
 	}
 	return errStr
+}
+
+// sortedPacketNames returns the keys of a packet table in a fixed order.
+func sortedPacketNames(m map[string]*model.Packet) []string {
+	names := make([]string, 0, len(m))
+	for name := range m {
+		names = append(names, name)
+	}
+	sort.Strings(names)
+	return names
+}
+
+// sortedMatchFieldKeys returns the keys of a packet's match-field table in a fixed order.
+func sortedMatchFieldKeys(m map[string][]model.MatchPair) []string {
+	keys := make([]string, 0, len(m))
+	for key := range m {
+		keys = append(keys, key)
+	}
+	sort.Strings(keys)
+	return keys
 }
 
 // AddIndent4ln adds 4-space indent and a newline (similar to fmt.Println)
